@@ -194,7 +194,7 @@ impl<'a> InputGen<'a> {
     fn has_from_none(&self, ty: &Ty) -> bool {
         match ty {
             Ty::Opt(_) => true,
-            Ty::Recv(id) | Ty::BoxRecv(id) => self.recvs[*id].from_none,
+            Ty::Recv(id) | Ty::BoxRecv(id) => self.recvs[*id].from_none || (self.recvs[*id].inner_default != Def::None && !self.recvs[*id].inner_skip),
             _ => false,
         }
     }
